@@ -45,7 +45,7 @@ def unicode_strings(r: random.Random, n: int) -> list[str]:
 
 
 def main() -> None:
-    run = Run("C17", "proof")
+    run = Run("C17", "exploration")
     run.forbid()
     run.props("Props/C17.v")
     q = run.tier == "quick"
